@@ -359,7 +359,8 @@ TrWrite ==
                                     THEN [ hist.creates EXCEPT ![DeploymentOf(E.pre)] = 0 ]
                                   ELSE hist.creates,
                     \* package controller persisted a (new) unpackedHash: remember for which spec
-                    unpacked  |-> IF IsPkgActor(E.actor) /\ E.ev = "StatusUpdate" /\ ok /\ k = pr.target /\ pr.hasSnap
+                    \* (also when only the response was lost: the effect is what counts)
+                    unpacked  |-> IF IsPkgActor(E.actor) /\ E.ev = "StatusUpdate" /\ k = pr.target /\ pr.hasSnap
                                      /\ E.post.cr.hash # E.pre.cr.hash
                                     THEN [ hist.unpacked EXCEPT ![k] = pr.snap.cr.tmplHash ]
                                   ELSE hist.unpacked ]
@@ -1034,6 +1035,12 @@ Inv_C16_Conditions ==
 \* a valid, admissible package rolls out: without API faults the pass that pulled it does not fail
 Inv_C16_ValidPackageDeploys ==
     (PkgEnd /\ ~PK.apiErr /\ PK.pulled = "valid" /\ ~PK.snap.cr.paused /\ ~PK.snap.deleting) => W.res = "ok"
+
+\* a changed image, config or component is always acted upon: a pass over an unpaused Package that does not pull
+\* found the spec exactly as it was when it was last unpacked
+Inv_C16_ChangedSpecIsPulled ==
+    (PkgEnd /\ W.res = "ok" /\ ~PK.apiErr /\ ~PK.snap.cr.paused /\ ~PK.snap.deleting /\ PK.pulled = "")
+    => (PK.snap.cr.hash # "" /\ hist.unpacked[PK.target] = PK.snap.cr.tmplHash)
 
 \* a Package whose spec is unchanged since it was unpacked is not pulled again
 Inv_C16_NoRepull ==
